@@ -344,3 +344,101 @@ Example C17_model_overload_is_source_nonvacuous :
 Proof.
   exact (conj (proj1 X.Bridge.BrTables.overload_bridges_inhabited) (proj1 (proj2 X.Bridge.BrTables.overload_bridges_inhabited))).
 Qed.
+
+(* ------------------------------------------------------------------------------------------------------------------
+   CAPSTONES (C17 / C10): the main theorems restated over the REGENERATED patcher only (Bridge/BrCapstoneC17.v composes them
+   with C17_model_patcher_is_source, C17_model_overload_is_source, C17_model_config_check_gate; Overload.patch_ops /
+   rewrite_one / config_check no longer occur in the statements).
+     source_exit impl types ops tyof F x         what the interpretation of the regenerated operatorPatcher.Exit leaves in *node
+     source_patch_ops impl types ops tyof F n e  compiler.PatchOperators: the walker over the slot table gen_walked REGENERATED
+                                                 from ast/visitor.go, with the regenerated Exit as visitor
+     source_config_accepts types ops cfns err F  the interpretation of the regenerated Config.Check returns no error
+   Reference side: map_tree, subterm_at, explicit_form, ref_resolve, eval_overloaded, Sem.eval.
+   Hypotheses: table_sigs_ok (decidable condition of the bridge), fuel F >= 2 for Exit, esize e <= n for the walk. *)
+Require Import X.Bridge.BrCapstoneC17.
+
+Theorem C17_source_patcher_unfold : forall implements types ops tyof F n e x cfns err,
+  source_exit implements types ops tyof F x =
+    match X.Ops.OverloadRules.gen_exit X.gen.GenTables.funcs implements types ops tyof F x with
+    | Some (X.Ops.OverloadRules.XDone x') => x' | _ => x end /\
+  source_patch_ops implements types ops tyof F n e =
+    match ops with
+    | [] => PDone e
+    | _ :: _ =>
+        match walk n gen_walked (to_visitor (source_exit_visitor implements types ops tyof F)) false e with
+        | WDone false e' => PDone e' | WDone true _ => PPanic | WPanic => PPanic | WOutOfFuel => PFuel
+        end
+    end /\
+  (source_config_accepts types ops cfns err F <->
+   X.Ops.OverloadRules.gen_config_check X.gen.GenTables.funcs types ops cfns err F = X.Ty.TableRules.Got None).
+Proof. exact (fun implements types ops tyof F n e x cfns err => conj eq_refl (conj eq_refl (iff_refl _))). Qed.
+
+(* regenerated patcher over the regenerated walk table = the regenerated Exit applied at EVERY position *)
+Theorem C17_source_patch_is_map_tree : forall implements types ops tyof,
+  X.Ops.OverloadRules.table_sigs_ok types = true ->
+  forall cfns err F, 2 <= F -> source_config_accepts types ops cfns err F ->
+  forall e n, esize e <= n ->
+  source_patch_ops implements types ops tyof F n e = PDone (map_tree (source_exit implements types ops tyof F) e).
+Proof. exact src_patch_is_map_tree. Qed.
+
+Theorem C17_source_every_position : forall implements types ops tyof,
+  X.Ops.OverloadRules.table_sigs_ok types = true ->
+  forall F p e x, 2 <= F -> subterm_at p e = Some x ->
+  subterm_at p (map_tree (source_exit implements types ops tyof F) e) = Some (map_tree (source_exit implements types ops tyof F) x).
+Proof. exact src_every_position. Qed.
+
+(* ... = the explicit-call form of the reference *)
+Theorem C17_source_patch_is_explicit_form : forall implements types ops tyof,
+  X.Ops.OverloadRules.table_sigs_ok types = true ->
+  forall cfns err F, 2 <= F -> source_config_accepts types ops cfns err F ->
+  forall e n, esize e <= n ->
+  source_patch_ops implements types ops tyof F n e = PDone (explicit_form implements types ops tyof e).
+Proof. exact src_patch_is_explicit_form. Qed.
+
+(* ... = the reference overloaded semantics, every tree / environment / context / state *)
+Theorem C17_source_equiv : forall implements types ops tyof,
+  X.Ops.OverloadRules.table_sigs_ok types = true ->
+  forall cfns err F, 2 <= F -> source_config_accepts types ops cfns err F ->
+  forall e n, esize e <= n ->
+  exists t, source_patch_ops implements types ops tyof F n e = PDone t /\
+    forall fe cfg env ctx s,
+      eval fe cfg env ctx t s = eval_overloaded implements types ops tyof fe cfg env ctx e s.
+Proof. exact src_equiv. Qed.
+
+(* the regenerated lookup of operators_table.go is the reference resolution on the declared parameters *)
+Theorem C17_source_lookup_is_reference : forall implements types,
+  X.Ops.OverloadRules.table_sigs_ok types = true ->
+  forall F fns l r, 0 < F -> (forall fn, In fn fns -> check_fn types fn = FnOk) ->
+  X.Ops.OverloadRules.gen_find_overload X.gen.GenTables.funcs implements types F fns l r =
+  Some (match ref_resolve implements types fns l r with Some fn => FHit (out_of types fn) fn | None => FMiss end).
+Proof. exact src_lookup_is_reference. Qed.
+
+(* the regenerated Config.Check rejects a mapping naming a missing / ambiguous / ill-shaped function *)
+Theorem C17_source_config_rejects : forall types ops cfns err F op fns fn, 0 < F ->
+  In (op, fns) ops -> In fn fns -> bad_target types fn ->
+  X.Ops.OverloadRules.gen_config_check X.gen.GenTables.funcs types ops cfns err F = X.Ty.TableRules.Got (Some 0) \/
+  X.Ops.OverloadRules.gen_config_check X.gen.GenTables.funcs types ops cfns err F = X.Ty.TableRules.Got (Some 1).
+Proof. exact src_config_rejects. Qed.
+
+Definition C17_source_capstones :=
+  (C17_source_patch_is_map_tree, C17_source_every_position, C17_source_patch_is_explicit_form, C17_source_equiv,
+   C17_source_lookup_is_reference, C17_source_config_rejects).
+Print Assumptions C17_source_capstones.
+
+(* non-vacuity: the universe of C17_everywhere_nonvacuous meets ALL hypotheses at once (signatures well formed, the
+   regenerated Config.Check accepts), and the regenerated patcher over the regenerated walk table, RECOMPUTED through the
+   interpreter, rewrites all overloaded occurrences (under a slice, an index, in a closure, as argument, map key / value,
+   both branches, nested) to the explicit-call form; the theorem applied *)
+Example C17_source_hypotheses_hold :
+  X.Ops.OverloadRules.table_sigs_ok types = true /\ source_config_accepts types ops [] None 2 /\
+  source_patch_ops impl types ops tyof 2 (esize everywhere) everywhere = PDone everywhere_explicit /\
+  everywhere_explicit <> everywhere.
+Proof. split; [vm_compute; reflexivity|]. split; [vm_compute; reflexivity|]. split; [vm_compute; reflexivity|discriminate]. Qed.
+
+Example C17_source_equiv_applied :
+  exists t, source_patch_ops impl types ops tyof 2 (esize everywhere) everywhere = PDone t /\
+    forall fe cfg env ctx s, eval fe cfg env ctx t s = eval_overloaded impl types ops tyof fe cfg env ctx everywhere s.
+Proof.
+  exact (C17_source_equiv impl types ops tyof (proj1 C17_source_hypotheses_hold) [] None 2 (le_n 2)
+           (proj1 (proj2 C17_source_hypotheses_hold)) everywhere (esize everywhere) (le_n _)).
+Qed.
